@@ -30,6 +30,7 @@ type box struct {
 	api  http.Handler
 	reg  *prometheus.Registry
 	logs *observer.ObservedLogs
+	fast map[string]prometheus.Metric // set by capCfg.open: the plugin's own collectors, read without Gather
 }
 
 // newBox creates a cache. With dumpFile set the plugin loads that file at
